@@ -11,7 +11,9 @@
    tables holding the whole side; Table.get_refs of a listed table returns exactly the contained references whose left
    side is that table; a reference that is not many-to-many has exactly one listed table as its SQL key holder.
    An inline reference starts at the column that declared it (the registered blueprint carries the declaring table and column).
-   Not proved (tie + identity oracle): note back-pointers. *)
+   Notes: every owner the constructors build (table, column, index, enum item, project) is the parent of its own note when the
+   constructor returns (C05_constructed_owner_is_parent_of_its_note_partial); that no later step re-parents a note is not proved
+   (tie + identity oracle). *)
 From PyDBML Require Import PyStr Py Heap Classes Database Tools PP Actions Build GenClasses GenGrammar Entry
   RenderSQL RuleFacts ContainerInv ContainerFull TableInv BuildInv BuildLinks.
 Import ListNotations.
@@ -84,6 +86,16 @@ Theorem C05_inline_reference_origin :
     end.
 Proof. exact inline_ref_blueprint_origin. Qed.
 Print Assumptions C05_inline_reference_origin.
+
+(* notes point back to their owner, at construction *)
+Theorem C05_constructed_owner_is_parent_of_its_note_partial :
+  (forall n ty u nn pk ai d nt c p h h' x, new_column n ty u nn pk ai d nt c p h = (h', Ok x) -> note_points_back h' x) /\
+  (forall s n u ty pk nt c h h' x, new_index s n u ty pk nt c h = (h', Ok x) -> note_points_back h' x) /\
+  (forall n nt c h h' x, new_enumitem n nt c h = (h', Ok x) -> note_points_back h' x) /\
+  (forall n i nt c h h' x, new_project n i nt c h = (h', Ok x) -> note_points_back h' x) /\
+  (forall name schema alias nt hc c ab props h h' x, new_table name schema alias [] [] nt hc c ab props h = (h', Ok x) -> note_points_back h' x).
+Proof. repeat split; [exact new_column_note|exact new_index_note|exact new_enumitem_note|exact new_project_note|exact new_table_note]. Qed.
+Print Assumptions C05_constructed_owner_is_parent_of_its_note_partial.
 
 (* the same for any list of blueprints, whatever grammar produced them; also when the build fails half-way *)
 Theorem C05_build_database_keeps_invariant :
